@@ -110,7 +110,16 @@ pub fn rec(out: &mut Out, seed: u64, full: bool) {
     let units = all_units();
     let sym = |u: &Unit| cps(u.symbol());
     for (ia, a) in units.iter().enumerate() {
-        let xs: Vec<f64> = if full { CONV_X.to_vec() } else { vec![CONV_X[(ia + seed as usize) % CONV_X.len()]] };
+        // units with an offset (and every unit of their dimension) get every magnitude, zero and minus zero included, in
+        // both tiers: the affine part of the formula only shows where offsets differ, and only at some magnitudes
+        let affine = units.iter().any(|u| u.offset != 0.0 && u.dimensions == a.dimensions);
+        let xs: Vec<f64> = if full || affine {
+            let mut v = CONV_X.to_vec();
+            v.push(-0.0);
+            v
+        } else {
+            vec![CONV_X[(ia + seed as usize) % CONV_X.len()]]
+        };
         for x in xs {
             let mut results = Vec::new();
             for b in units.iter() {
